@@ -21,4 +21,42 @@ PROPS = {
             "the writer-does-not-retain-the-buffer clause is exercised by E1 (the harness scribbles over the caller's buffer after every Write) but is not a separate theorem: the model's chunks are values",
         ],
     },
+
 }
+
+_E2_ASSUME = [
+    "Go channel/select semantics; testing/synctest's virtual clock is punctual and monotone (timers never early is the only clock assumption of the theorems)",
+    "math/rand results are inputs of the model (scripted through the build overlay in E2); nothing is assumed about their distribution except in C14_measure",
+    "durations do not overflow int64 (explicit hypotheses MsOK/LatOK/BwOK/SlicerOK of the theorems)",
+]
+
+
+def _e2(prop, only):
+    return [{"engine": "e2", "gotest": True, "args": ["-only", only, "-props", prop], "tag": prop}]
+
+
+def _stage(prop, theorems, only, scope):
+    return {
+        "lean_modules": ["Toxi.Proofs." + prop],
+        "theorems": ["Toxi.Toxic." + t for t in theorems],
+        "engines": _e2(prop, only),
+        "needs_gotest": True,
+        "model_scope": scope,
+        "assumptions": _E2_ASSUME,
+    }
+
+
+PROPS["C08"] = _stage("C08", ["C08_lower", "C08_upper", "C08_stamp", "C08_series", "C08_burst", "C08_legacy_series_fails", "latency_input", "delayMs_bounds"],
+                      "latency", "toxics/latency.go: delay(), Pipe (every select), as coroutine Toxi.Toxic.step; ToxicStub.Run/InterruptToxic via Model/StageEnv")
+PROPS["C09"] = _stage("C09", ["Bw.inv_step", "C09_rate", "Bw.inv_init", "C09_not_late", "C09_recv", "C09_instalment", "C09_final"],
+                      "bandwidth", "toxics/bandwidth.go: Pipe incl. instalment loop, final wait, interrupt flush (WriteOutput 5 s)")
+PROPS["C10"] = _stage("C10", ["C10_blackhole", "C10_deadline_fixed", "C10_close_exact", "C10_zero", "C10_legacy_fails", "C10_start_pc"],
+                      "timeout", "toxics/timeout.go: Pipe (both loops); Cleanup is modelled at link level")
+PROPS["C11"] = _stage("C11", ["C11_step", "C11_exact", "C11_chunking_irrelevant", "C11_persists", "limitRun_take"],
+                      "limit_data", "toxics/limit_data.go: Pipe with per-stub LimitDataToxicState")
+PROPS["C12"] = _stage("C12", ["C12_chunk", "C12_terminates", "C12_partition", "C12_gap", "C12_interrupt", "C12_unguarded_diverges"],
+                      "slicer", "toxics/slicer.go: chunk() recursion with draws as inputs, Pipe piece/gap loop and interrupt flush")
+PROPS["C13"] = _stage("C13", ["C13_slow_passes", "C13_slow_delay", "C13_reset_silent", "C13_reset_timing"],
+                      "slow_close,reset_peer", "toxics/slow_close.go, toxics/reset_peer.go: Pipe; the SO_LINGER/RST clause is kernel behaviour (not modelled at this level)")
+PROPS["C14"] = _stage("C14", ["C14_inactive_is_noop", "C14_inactive_start", "C14_zero", "C14_one", "C14_decision", "C14_measure"],
+                      "timeout,noop,limit_data,latency", "toxics/toxic.go: ToxicStub.Run (one draw per start, toxic or noop)")
